@@ -689,8 +689,9 @@ theorem view_setAs (cfg : Cfg) (w : World) (x : AState) : view cfg { w with as :
 
 /-- the view of a world written out field by field -/
 theorem view_mk (cfg : Cfg) (ans : List Ans) (now : Nat) (tr : List (Req × Ans)) (rs : RState) (as : AState)
-    (att oc : Nat) (tl : List TimelineEv) (tls : Nat) (bud : Budget.St) (br : Breaker.St) (xc : XCtx) :
-    view cfg ⟨ans, now, tr, rs, as, att, oc, tl, tls, bud, br, xc⟩ = viewOf cfg tr now rs := rfl
+    (att oc : Nat) (tl : List TimelineEv) (tls : Nat) (bud : Budget.St) (br : Breaker.St) (xc : XCtx)
+    (sil : Bool) :
+    view cfg ⟨ans, now, tr, rs, as, att, oc, tl, tls, bud, br, xc, sil⟩ = viewOf cfg tr now rs := rfl
 
 theorem viewOf_fold (cfg : Cfg) (w : World) : viewOf cfg w.trace w.now w.rs = view cfg w := rfl
 
